@@ -14,6 +14,8 @@ import (
 	"fmt"
 	"io"
 	"os"
+	"runtime"
+	"strconv"
 	"sync"
 	"sync/atomic"
 	"syscall"
@@ -25,6 +27,23 @@ import (
 	"github.com/daeuniverse/dae/control"
 	"github.com/sirupsen/logrus"
 )
+
+// c20Long is the overall deadline for an event the protocol promises (a channel closed, a goroutine
+// finished).  Outcomes are derived from events, never from short sleeps; the orchestrator re-runs a
+// case with VERIF_C20_SCALE = 4 and 16 before it believes that something is stuck.
+func c20Long() time.Duration {
+	scale := 1
+	if v, err := strconv.Atoi(os.Getenv("VERIF_C20_SCALE")); err == nil && v > 0 {
+		scale = v
+	}
+	return time.Duration(scale) * 2500 * time.Millisecond
+}
+
+func c20Dump() string {
+	buf := make([]byte, 1<<16)
+	n := runtime.Stack(buf, true)
+	return string(buf[:n])
+}
 
 func newC20Logger() *logrus.Logger {
 	l := logrus.New()
@@ -95,6 +114,7 @@ type c20Result struct {
 	QuiesceNs int64    `json:"quiesce_ns"`
 	UntilOk   bool     `json:"until_ok"` // every deadline set was now+quiesce (within 2 s)
 	Codes     [5]int   `json:"codes"`    // numeric values of ReloadSend..ReloadBusy
+	Dump      string   `json:"dump,omitempty"` // all goroutines at the first event that did not arrive
 	Panic     string   `json:"panic,omitempty"`
 }
 
@@ -239,10 +259,10 @@ func c20Run(cs c20Case) (res c20Result) {
 				}
 				select {
 				case <-r.done:
-				case <-time.After(2 * time.Second):
+				case <-time.After(c20Long()):
 				}
 				if r.waiters > 0 {
-					prog.waitClears(before+r.waiters, 2*time.Second)
+					prog.waitClears(before+r.waiters, c20Long())
 				}
 			}
 		}
@@ -325,8 +345,11 @@ func c20Run(cs c20Case) (res c20Result) {
 				}
 			}
 			m.finishReloadSuccess()
-			if async && !prog.waitClears(before+1, 2*time.Second) {
+			if async && !prog.waitClears(before+1, c20Long()) {
 				note = "release-goroutine-stuck"
+				if res.Dump == "" {
+					res.Dump = c20Dump()
+				}
 			}
 		case "F":
 			m.finishReloadFailure()
@@ -380,21 +403,26 @@ func c20Run(cs c20Case) (res c20Result) {
 					close(r.gate)
 					r.opened = true
 				}
-				wait := time.Duration(op.WaitMs) * time.Millisecond
-				if r.plane == nil && wait < 3*time.Second {
-					wait = 3 * time.Second // real startControlPlaneRetirement on a zero control plane: nothing to wait for
-				}
+				// the generator asks for this only when nothing has to be waited for any more (abort, no
+				// overlap, no sessions, budget used up, sessions ended, context cancelled): wait for the
+				// event itself
 				select {
 				case <-r.done:
 					r.closed = true
-				case <-time.After(wait + 20*time.Millisecond):
+				case <-time.After(c20Long()):
+					if res.Dump == "" {
+						res.Dump = c20Dump()
+					}
 					if r.plane == nil {
 						note = "retirement-stuck"
 					}
 				}
 				if r.closed {
-					if r.waiters > 0 && !prog.waitClears(before+r.waiters, 2*time.Second) {
+					if r.waiters > 0 && !prog.waitClears(before+r.waiters, c20Long()) {
 						note = "release-goroutine-stuck"
+						if res.Dump == "" {
+							res.Dump = c20Dump()
+						}
 					}
 					r.waiters = 0
 				}
@@ -405,26 +433,39 @@ func c20Run(cs c20Case) (res c20Result) {
 			plane := newC20Plane(op.Sessions)
 			ctx, cancel := context.WithCancel(context.Background())
 			resCh := make(chan controlPlaneDrainWaitResult, 1)
-			var timers []*time.Timer
-			if op.IdleMs >= 0 {
-				timers = append(timers, time.AfterFunc(time.Duration(op.IdleMs)*time.Millisecond, plane.drain))
-			}
-			if op.CancelMs >= 0 {
-				timers = append(timers, time.AfterFunc(time.Duration(op.CancelMs)*time.Millisecond, cancel))
-			}
 			go func() {
 				resCh <- waitForControlPlaneDrain(log, ctx, plane, time.Duration(op.MaxWaitNs), 0)
 			}()
-			select {
-			case r := <-resCh:
-				ret = int64(r)
-			case <-time.After(time.Duration(op.WatchMs) * time.Millisecond):
-				ret = 3
-				cancel()
-				<-resCh
+			// at most one source of wake-up per probe, triggered as an event (no competing real timers)
+			if op.IdleMs >= 0 {
+				plane.drain()
 			}
-			for _, t := range timers {
-				t.Stop()
+			if op.CancelMs >= 0 {
+				cancel()
+			}
+			if op.Sessions > 0 && op.IdleMs < 0 && op.CancelMs < 0 && op.MaxWaitNs >= int64(5*time.Second) {
+				// seconds of budget left and nothing happens: it must still be waiting; a short look is
+				// enough (load can only make a return later)
+				select {
+				case r := <-resCh:
+					ret = int64(r)
+				case <-time.After(50 * time.Millisecond):
+					ret = 3
+					cancel()
+					<-resCh
+				}
+			} else {
+				select {
+				case r := <-resCh:
+					ret = int64(r)
+				case <-time.After(c20Long()):
+					ret = 3
+					if res.Dump == "" {
+						res.Dump = c20Dump()
+					}
+					cancel()
+					<-resCh
+				}
 			}
 			cancel()
 		case "RB":
@@ -438,13 +479,15 @@ func c20Run(cs c20Case) (res c20Result) {
 			sigs := make(chan os.Signal, 1)
 			ready := make(chan bool, 1)
 			sigs <- syscall.SIGUSR1
+			long := c20Long()
 			go func() {
-				for i := 0; i < 2000 && len(sigs) > 0; i++ {
+				deadline := time.Now().Add(long)
+				for len(sigs) > 0 && time.Now().Before(deadline) {
 					time.Sleep(time.Millisecond)
 				}
 				ready <- true
 			}()
-			r, _ := waitReloadReadyOrSignal(log, sigs, ready, 3*time.Second)
+			r, _ := waitReloadReadyOrSignal(log, sigs, ready, 4*long)
 			if r != reloadReadyWaitReady {
 				note = fmt.Sprintf("wait-result-%d", r)
 			}
@@ -456,7 +499,7 @@ func c20Run(cs c20Case) (res c20Result) {
 		supp, until := outbounddialer.VerifC20Suppression()
 		if until != lastUntil {
 			delta := until - time.Now().UnixNano()
-			if delta > res.QuiesceNs || delta < res.QuiesceNs-int64(2*time.Second) {
+			if delta > res.QuiesceNs || delta < res.QuiesceNs-int64(10*time.Second) {
 				res.UntilOk = false
 			}
 			lastUntil = until
